@@ -8,7 +8,7 @@ conversion of `for … in … do` loops (`forIn`) into `List.foldlM`.
 namespace Sia.Ledger
 
 /-- `omega` does not look through the abbreviation `Cur`; unfold it first -/
-macro "cur_omega" : tactic => `(tactic| ((try unfold Cur at *); omega))
+macro "c1_omega" : tactic => `(tactic| ((try unfold Cur at *); omega))
 
 theorem bind_eq_ok {α β : Type} {x : VM α} {f : α → VM β} {b : β} :
     (x >>= f) = .ok b ↔ ∃ a, x = .ok a ∧ f a = .ok b := by
@@ -20,14 +20,14 @@ theorem bind_eq_ok {α β : Type} {x : VM α} {f : α → VM β} {b : β} :
             · intro h; exact ⟨a, rfl, h⟩
             · rintro ⟨a', h, h'⟩; cases h; exact h'
 
-theorem pure_eq_ok {α : Type} {a b : α} : (pure a : VM α) = .ok b ↔ a = b := by
+theorem pure_eq_ok_c1 {α : Type} {a b : α} : (pure a : VM α) = .ok b ↔ a = b := by
   constructor
   · intro h; cases h; rfl
   · intro h; rw [h]; rfl
 
-@[simp] theorem reject_ne_ok {α : Type} {m : String} {a : α} : (reject m : VM α) ≠ .ok a := by
+@[simp] theorem reject_ne_ok_c1 {α : Type} {m : String} {a : α} : (reject m : VM α) ≠ .ok a := by
   intro h; cases h
-@[simp] theorem gopanic_ne_ok {α : Type} {m : String} {a : α} : (gopanic m : VM α) ≠ .ok a := by
+@[simp] theorem gopanic_ne_ok_c1 {α : Type} {m : String} {a : α} : (gopanic m : VM α) ≠ .ok a := by
   intro h; cases h
 
 theorem addC_ok {a b c : Cur} : addC a b = .ok c ↔ (a + b < curLimit ∧ c = a + b) := by
@@ -99,7 +99,7 @@ theorem sumChecked_some {l : List Cur} {s : Cur} (h : sumChecked l = some s) : s
   cases ha; simpa using hs
 
 /-- a `for` loop whose body always yields is a `foldlM` -/
-theorem forIn_eq_foldlM {α β : Type} (l : List α) (init : β) (body : α → β → VM (ForInStep β))
+theorem forIn_eq_foldlM_c1 {α β : Type} (l : List α) (init : β) (body : α → β → VM (ForInStep β))
     (f : β → α → VM β) (h : ∀ a b, body a b = (f b a >>= fun r => pure (ForInStep.yield r))) :
     forIn l init body = l.foldlM f init := by
   induction l generalizing init with
@@ -111,7 +111,7 @@ theorem forIn_eq_foldlM {α β : Type} (l : List α) (init : β) (body : α → 
     | ok b => exact ih b
 
 /-- invariant rule for `foldlM` in `VM`; the invariant may mention the remaining input -/
-theorem foldlM_inv {α β : Type} (f : β → α → VM β) (I : β → List α → Prop)
+theorem foldlM_inv_c1 {α β : Type} (f : β → α → VM β) (I : β → List α → Prop)
     (step : ∀ b a rest b', I b (a :: rest) → f b a = .ok b' → I b' rest) :
     ∀ (l : List α) (b b' : β), I b l → l.foldlM f b = .ok b' → I b' [] := by
   intro l
